@@ -368,7 +368,11 @@ def u1_drain_step(src, nparts, idempotent):
         if pl["muted"] or (not leaderless and pl["leader"] in ignore):
             want = "stay"
         elif leaderless:
-            want = "fail" if bool(age > TTL) else "stay"
+            if tm is not None and pl["head_is_retry"]:
+                # its sequence numbers are taken: it can only be re-sent, dropping it leaves a gap for the next batch
+                want = "stay"
+            else:
+                want = "fail" if bool(age > TTL) else "stay"
         elif not pl["closed"] and bool(age < LINGER):
             want = "stay"
         else:
@@ -377,7 +381,8 @@ def u1_drain_step(src, nparts, idempotent):
             want = "stay"
         if want == "stay":
             src.check(tp not in drained and queue == batches[tp], f"{tp}: queue changed although the head may not be sent now "
-                      "(muted / leader busy or unknown / lingering)", plan=str(pl))
+                      "(muted / leader busy or unknown / lingering / an already-sequenced batch of an idempotent producer waiting for a leader)",
+                      plan=str(pl))
             if tm is not None:
                 src.check(tm.sequence_number(tp) == out["seq_before"][tp], f"{tp}: sequence counter moved although nothing was drained")
         elif want == "fail":
@@ -443,8 +448,20 @@ def s3_leaderless_expiry(src):
     outage = [0.4, 1.6, 2.4][src.choice("leaderless_for", 3)]      # request timeout (= batch ttl) is 1 s
     before = src.choice("records_acknowledged_before_the_outage", 2)
     during = 1 + src.choice("records_sent_during_the_outage", 2)
+    # how the outage starts: the client's metadata already shows no leader when the record is sent, or the
+    # record's batch is on its way and the old leader refuses it (NOT_LEADER) as the leadership goes away
+    begins = ["metadata_first", "batch_refused_by_old_leader"][src.choice("outage_begins_with", 2)]
     cluster = simkafka.Cluster(nodes=(0, 1), topics={"t": 2})
     res = {"during": [], "after": []}
+    armed = []
+
+    def fault_fn(c, node, req, entry):
+        if armed and req.API_KEY == 0:
+            armed.clear()
+            c.leader[("t", 0)] = -1
+            return ("error", 6)
+        return None
+    cluster.fault_fn = fault_fn
 
     async def main(loop):
         with simkafka.installed(cluster):
@@ -457,8 +474,11 @@ def s3_leaderless_expiry(src):
                 for i in range(before):
                     await (await p.send("t", b"b%d" % i, key=b"k", partition=0))
                 real = cluster.leader[("t", 0)]
-                cluster.leader[("t", 0)] = -1
-                await p.client.force_metadata_update()
+                if begins == "metadata_first":
+                    cluster.leader[("t", 0)] = -1
+                    await p.client.force_metadata_update()
+                else:
+                    armed.append(1)
                 futs = []
                 for i in range(during):
                     try:
@@ -468,7 +488,7 @@ def s3_leaderless_expiry(src):
                 await asyncio.sleep(outage)
                 cluster.leader[("t", 0)] = real
                 await p.client.force_metadata_update()
-                await asyncio.sleep(0.3)
+                await asyncio.sleep(1.5)
                 for f in futs:
                     if f.done():
                         res["during"].append("ok" if f.exception() is None else type(f.exception()).__name__)
@@ -494,7 +514,7 @@ def s3_leaderless_expiry(src):
     except vloop.Deadlock as e:
         res["deadlock"] = str(e)
     c = cluster
-    info = dict(idempotent=idem, leaderless_for=outage, before=before, during=res["during"], after=res["after"],
+    info = dict(idempotent=idem, leaderless_for=outage, begins=begins, before=before, during=res["during"], after=res["after"],
                 presented=[x[3:] for x in c.seq_presented][:8])
     src.note(info)
     src.check("deadlock" not in res, "producer run did not finish in bounded virtual time: " + str(res.get("deadlock")), **info)
